@@ -2,7 +2,12 @@
 
 package simkit
 
+import "unsafe"
+
 const RaceBuild = false
 
 func raceOff() {}
 func raceOn()  {}
+
+func RaceRelease(p unsafe.Pointer) {}
+func RaceAcquire(p unsafe.Pointer) {}
